@@ -41,6 +41,11 @@ def gen_profile(rng, npr, kind=None):
         N = rng.choice([200, 100, 50, 151]); h = numpy.linspace(0, 15000, N)
     else:
         h = numpy.sort(npr.uniform(0, 20000, size=N)); h[0] = rng.choice([0.0, h[0]])
+    if kind in ("irregular", "arange") and rng.random() < 0.35 and len(h) >= 6:
+        # two instruments reporting the same altitude, a repeated ground layer: heights need not be distinct
+        for _ in range(rng.randint(1, 3)):
+            i_ = rng.randint(1, len(h) - 1); h[i_] = h[i_ - 1]
+        kind += "+repeated"
     p = npr.uniform(0.05, 1.0, size=len(h)) * 1e-13
     w = npr.uniform(2, 40, size=len(h))
     return kind, h, p, w
@@ -141,7 +146,7 @@ def property_checks(inp):
             A(("OG returns exactly L layers (%s)" % tg, 0.0 if (len(hg) == Lg and len(cg) == Lg) else 1.0, 0.0))
             if len(cg):
                 A(("OG conserves the total Cn2", abs(float(numpy.sum(cg) / p.sum() - 1)), 1e-12))
-                A(("OG heights are input heights in increasing order", 0.0 if (all(x in set(h.tolist()) for x in hg) and (numpy.diff(hg) > 0).all()) else 1.0, 0.0))
+                A(("OG heights are input heights in increasing order", 0.0 if (all(x in set(h.tolist()) for x in hg) and ((numpy.diff(hg) > 0).all() if len(set(h.tolist())) == len(h) else (numpy.diff(hg) >= 0).all())) else 1.0, 0.0))      # (repeated input heights: neighbouring groups may share one)
                 eq = numpy.linspace(0, len(p), Lg + 1, dtype=int)[1:-1]
                 def _cost(groups_):      # independent of the library's cost functions
                     return sum(min(float((p[g] * numpy.abs(h[g].astype(float) - float(h[c]))).sum()) for c in g) for g in groups_)
